@@ -17,5 +17,7 @@ INVARIANT MaximalOpen
 INVARIANT OncePerRotation
 INVARIANT NoneMissing
 INVARIANT DurationIsWidth
+INVARIANT DirectCoversPulse
+PROPERTY ExpandCoversPulses
 INVARIANT ExpandOnePulse
 CHECK_DEADLOCK FALSE
